@@ -65,11 +65,14 @@ type Config struct {
 }
 
 func DefaultDialer() *uacp.Dialer {
+	// copy the package default so that options like MaxMessageSize
+	// do not modify uacp.DefaultClientACK for every other client.
+	ack := *uacp.DefaultClientACK
 	return &uacp.Dialer{
 		Dialer: &net.Dialer{
 			Timeout: DefaultDialTimeout,
 		},
-		ClientACK: uacp.DefaultClientACK,
+		ClientACK: &ack,
 	}
 }
 
